@@ -50,7 +50,10 @@ var c02Kinds = []string{
 	"label",
 	"shape-L", "shape-R", "shape-LR", "zero-openings", "len-ys", "len-zs",
 	"repr", "repr",
-	"noise",
+	"noise", "identity-proof",
+	// an uninitialised (all-zero, Z=0) element is not a group element: a proof or statement
+	// containing one must never be accepted, whatever the final scalar is
+	"zero-D", "zero-L", "zero-R", "zero-C",
 }
 
 func (c02) Gen(seed uint64, run int, tier, variant string) interface{} {
@@ -73,8 +76,10 @@ func (c02) Gen(seed uint64, run int, tier, variant string) interface{} {
 	switch f.Kind {
 	case "flip-proof-byte", "replace-proof-byte":
 		f.Pos = r.Intn(576)
-	case "replace-L", "replace-R":
+	case "replace-L", "replace-R", "zero-L", "zero-R":
 		f.Pos = r.Intn(8)
+	case "zero-C":
+		f.Pos = r.Intn(n)
 	case "C-other", "z-other", "y-other", "dup", "drop":
 		f.Pos = r.Intn(n)
 	case "swap":
@@ -108,6 +113,9 @@ type message struct {
 	L, R   []refmodel.Point
 	A      *big.Int
 	dropYs, dropZs int // shape faults on the statement: ys/zs shortened by this many entries
+	zeroField      int  // object form: index of the proof element replaced by the zero value (0=D, 1..8=L, 9..16=R), -1 none
+	zeroC          int  // index of the commitment replaced by the zero value, -1 none
+	zeroA          bool // final scalar forced to 0 as well
 }
 
 func honestProve(o *Openings, label string) ([]byte, error) {
@@ -138,7 +146,7 @@ func identical(a, b *message) bool {
 	if a.label != b.label || len(a.Cs) != len(b.Cs) || len(a.zs) != len(b.zs) || len(a.ys) != len(b.ys) || a.shaped != b.shaped {
 		return false
 	}
-	if a.dropYs != b.dropYs || a.dropZs != b.dropZs {
+	if a.dropYs != b.dropYs || a.dropZs != b.dropZs || a.zeroField != b.zeroField || a.zeroC != b.zeroC || a.zeroA != b.zeroA {
 		return false
 	}
 	for i := range a.Cs {
@@ -171,7 +179,7 @@ func (c02) Exec(plan interface{}) Result {
 		res.Infra = "honest prover failed: " + err.Error() // C01's subject, not C02's
 		return res
 	}
-	sent := &message{label: p.Set.Label, zs: append([]uint8{}, o.Zs...), proof: pb}
+	sent := &message{label: p.Set.Label, zs: append([]uint8{}, o.Zs...), proof: pb, zeroField: -1, zeroC: -1}
 	for i, op := range p.Set.Ops {
 		sent.Cs = append(sent.Cs, o.ComRef[op.Poly])
 		sent.reprs = append(sent.reprs, op.VRepr)
@@ -282,6 +290,34 @@ func (c02) Exec(plan interface{}) Result {
 		for i := range d.reprs {
 			d.reprs[i] = Repr(r.Intn(int(NumReprs)))
 		}
+	case "identity-proof":
+		id := refmodel.Identity().Encode()
+		for k := 0; k < 17; k++ {
+			copy(field(k), id[:])
+		}
+		copy(field(17), le32(new(big.Int)))
+	case "zero-D", "zero-L", "zero-R", "zero-C":
+		rp, err := refmodel.ParseMultiProof(d.proof)
+		if err != nil {
+			res.Infra = "reference cannot parse the honest proof: " + err.Error()
+			return res
+		}
+		d.shaped = true
+		d.D, d.L, d.R, d.A = rp.D, rp.IPA.L, rp.IPA.R, rp.IPA.A
+		switch f.Kind {
+		case "zero-D":
+			d.zeroField = 0
+		case "zero-L":
+			d.zeroField = 1 + f.Pos%8
+		case "zero-R":
+			d.zeroField = 9 + f.Pos%8
+		case "zero-C":
+			d.zeroC = f.Pos % n
+		}
+		d.zeroA = f.Bit%2 == 0
+		if d.zeroA {
+			d.A = new(big.Int)
+		}
 	case "noise":
 		for k := 0; k < 17; k++ {
 			copy(field(k), randomPointBytes(r))
@@ -323,7 +359,8 @@ func (c02) Exec(plan interface{}) Result {
 		}
 	}
 	same := identical(sent, d)
-	shapeFault := d.shaped || d.dropYs > 0 || d.dropZs > 0 || len(d.Cs) == 0
+	zeroFault := d.zeroField >= 0 || d.zeroC >= 0
+	shapeFault := (d.shaped && !zeroFault) || d.dropYs > 0 || d.dropZs > 0 || len(d.Cs) == 0
 
 	// ---- reference verdict on the delivered message
 	refOK := false
@@ -335,6 +372,9 @@ func (c02) Exec(plan interface{}) Result {
 	} else {
 		rproof, refErr = refmodel.ParseMultiProof(d.proof)
 		parseOK = refErr == nil
+	}
+	if zeroFault {
+		parseOK = false // not a group element: no reference verdict other than "reject"
 	}
 	if parseOK {
 		rys := d.ys[:len(d.ys)-minInt(d.dropYs, len(d.ys))]
@@ -366,6 +406,17 @@ func (c02) Exec(plan interface{}) Result {
 			return o
 		}
 		proof := multiproof.MultiProof{D: ElemFromRef(d.D, ReprAffine, nil), IPA: ipa.IPAProof{L: mk(d.L), R: mk(d.R), A_scalar: FrFromBig(d.A)}}
+		switch {
+		case d.zeroField == 0:
+			proof.D = banderwagon.Element{}
+		case d.zeroField >= 1 && d.zeroField <= 8:
+			proof.IPA.L[d.zeroField-1] = banderwagon.Element{}
+		case d.zeroField >= 9:
+			proof.IPA.R[d.zeroField-9] = banderwagon.Element{}
+		}
+		if d.zeroC >= 0 {
+			Cs[d.zeroC] = &banderwagon.Element{}
+		}
 		vo, out = Simulate(p.Verifier, 8000, func() (vo verifyOut) {
 			tr := common.NewTranscript(d.label)
 			vo.ok, vo.err = multiproof.CheckMultiProof(tr, env.Config(), &proof, Cs, ys, zs)
@@ -379,6 +430,13 @@ func (c02) Exec(plan interface{}) Result {
 		if res.Class == "panic" {
 			res.Detail = fmt.Sprintf("verifier panicked on a message with fault %s: %s", f.Kind, res.Detail)
 		}
+		return res
+	}
+	if zeroFault {
+		if vo.ok {
+			return mergeViolation(res, "accepted-non-element", "fault %s (a=0: %v): a message containing the all-zero (uninitialised, Z=0) value in place of a group element was accepted", f.Kind, d.zeroA)
+		}
+		res.OK = true
 		return res
 	}
 	if !d.shaped && (vo.readErr == nil) != parseOK {
